@@ -49,6 +49,15 @@ fn register_rt(prec: i64, right: bool) {
     );
 }
 
+/// the property's precondition for arbitrary (fuzz-found) text: no name - reference or function -
+/// is spelled like an operator word (`in= 1` tokenizes to the NAME `in`, which expr() must write
+/// as the word `in`)
+pub fn names_avoid_operator_words(text: &str) -> bool {
+    let (toks, _) = expression_engine::verif_hooks::tokenize(text);
+    let tab = OpTable::builtin();
+    toks.iter().all(|t| !(matches!(t.kind, "reference" | "function") && (tab.is_op(&t.text) || t.text == "not" || t.text.starts_with("vh_"))))
+}
+
 pub fn check_text(text: &str, key: &str, nontrivial: bool, st: &mut Stats) -> CaseResult {
     check_text_with(text, key, nontrivial, st, json!({"text": text}))
 }
